@@ -862,7 +862,14 @@ def evaluate_conc(ctx, exe_api, cases, st, record=True):
             verdicts.append("violation")
             if record:
                 ctx.violation(case_json(c), why)
-        if r.timed_out or (r.rc != 0 and not tsan) or not ended:
+        if tsan and (r.timed_out or not ended) and "ThreadSanitizer: data race" not in r.err:
+            # the ThreadSanitizer runtime itself may be unusable on a host (address-space layout): not a verdict; the same
+            # case class is covered by the ASan build
+            verdicts.append("skip")
+            st.bump(st.skipped, "threadsanitizer-run-unusable")
+            ctx.note("ThreadSanitizer run of harness/c07_conc.cpp unusable: %s" % (r.err[-200:] or "rc=%s" % r.rc))
+            continue
+        if (r.timed_out or (r.rc != 0 and not tsan) or not ended) and not (tsan and "ThreadSanitizer: data race" in r.err):
             viol("%s: the implementation aborts / hangs: %s" % (
                 head, "timeout" if r.timed_out else crash_text(r.sanitizer or r.err[-600:] or "rc=%d" % r.rc)))
             continue
@@ -876,6 +883,8 @@ def evaluate_conc(ctx, exe_api, cases, st, record=True):
         if X is not None:
             viol("%s: raised %s" % (head, X))
             continue
+        if tsan and "ThreadSanitizer: data race" in r.err and "calls" not in R:
+            R.update({"calls": ["0"], "wrong": ["0"], "seqcheck": ["0"]})
         try:
             calls = int(R["calls"][0])
             wrong = int(R["wrong"][0]) + int(R.get("ompwrong", ["0"])[0])
@@ -1398,9 +1407,11 @@ def run(ctx):
     mexe = ctx.extract()
     st = Stats()
     cases, hist = build_cases(ctx, quick)
+    corpus_conc = [c for c in cases if c.get("kind") in ("CONC", "EMBC")]
+    cases = [c for c in cases if c.get("kind") not in ("CONC", "EMBC")]
     verdicts = evaluate(ctx, exe, mexe, cases, st)
     # wave 4: the returned function applied from several application threads at once
-    conc = gen_conc(ctx.rng, quick)
+    conc = corpus_conc + gen_conc(ctx.rng, quick)
     verdicts += evaluate_conc(ctx, exe, conc, st)
     for c in conc:
         bump(hist, "concurrent-application:" + ("threadsanitizer" if c.get("tsan") else c["kind"]))
